@@ -5193,6 +5193,10 @@ func (b *Bitmap) UnmarshalBinary(data []byte) error {
 	}
 	statsHit("Bitmap/UnmarshalBinary")
 	b.opN = 0 // reset opN since we're reading new data.
+	if len(data) < headerBaseSize {
+		// too short for either format's header (and for the magic number)
+		return errors.New("unmarshaling roaring: data too small")
+	}
 	fileMagic := uint32(binary.LittleEndian.Uint16(data[0:2]))
 	if fileMagic == MagicNumber { // if pilosa roaring
 		return errors.Wrap(b.unmarshalPilosaRoaring(data), "unmarshaling as pilosa roaring")
